@@ -63,16 +63,21 @@ func H_C12_roundtrip(v *V) {
 	field := v.Shape("field")
 	lv := v.Shape("lv")
 	opts := IniOptions(0)
-	switch v.Choice(4) {
-	case 1:
+	if v.Shape("oneopt") == 1 {
+		// a single write-option set (used for the longest values)
 		opts = IniIncludeDefaults
-	case 2:
-		opts = IniIncludeDefaults | IniCommentDefaults
-	case 3:
-		opts = IniIncludeComments
-	}
-	if v.Choice(2) == 1 {
-		opts |= IniIncludeComments
+	} else {
+		switch v.Choice(4) {
+		case 1:
+			opts = IniIncludeDefaults
+		case 2:
+			opts = IniIncludeDefaults | IniCommentDefaults
+		case 3:
+			opts = IniIncludeComments
+		}
+		if v.Choice(2) == 1 {
+			opts |= IniIncludeComments
+		}
 	}
 	p1, d1 := c12Parser()
 	p1.ParseArgs(nil)
